@@ -1,5 +1,5 @@
-"""Per-property configuration of ./check: which contract groups decide it, which bounded stand-in accompanies it,
-what is assumed."""
+"""Per-property configuration of ./check: which contract groups decide it (deductive part), which bounded stand-ins
+accompany it (always labelled bounded), what is assumed."""
 
 COMMON_TRUSTED = [
     "CPython 3.12 executes the mechanically rewritten body (pyvc/rewrite.py rules R1-R9) as it executes the original",
@@ -10,37 +10,52 @@ COMMON_ASSUMPTIONS = [
     "contracts and invariants say what the property says (each top-level clause is named after the property sentence it encodes)",
     "node functions terminate and do not touch tawazi internals",
     "Python ints are mathematical integers (exact); no floating point is involved",
+    "summary contracts used at call sites (async_execute, run_subgraph, extend_results_with_args, get_return_values, extend_graph_with_debug_nodes, make_subgraph ...) are the post-conditions proved for those functions in their own unit; a function listed under function_errors is NOT proved and its summary is then an assumption",
 ]
-
 SCHED_TRUSTED = [
-    "networkx.DiGraph primitives used by the verified functions (in_degree, successors, remove_node, remove_nodes_from, __len__, __iter__, __contains__) per pyvc/lib.py",
+    "networkx.DiGraph primitives used by the verified functions (in_degree, out_degree, successors, predecessors, remove_node, remove_nodes_from, subgraph, copy, __len__, __iter__, __contains__, dfs_tree, ancestors, descendants) per pyvc/lib.py",
     "concurrent.futures.wait / asyncio.wait: return a partition (done, not_done) of the given set, done non-empty if the set is non-empty, not_done empty for ALL_COMPLETED",
     "ThreadPoolExecutor.submit / asyncio.ensure_future return a fresh future; Future.result() returns or re-raises the callable's exception",
-    "lemma L1 (a non-empty finite node set has a rank-minimal element; Lean: lemmas/graph_lemmas.lean) instantiated at the loop head",
-    "for-loop rule: a loop over n distinct elements runs n iterations",
+    "lemma L1 (a non-empty finite node set has a rank-minimal element) and L2 (reachability in successor- / predecessor-closed sub-graphs), Lean: lemmas/graph_lemmas.lean; L3 (a sum over a finite set does not depend on the enumeration order)",
+    "for-loop rule: a loop over n distinct elements runs n iterations, in an arbitrary order",
+    "copy.copy / copy.deepcopy: equal, unshared; functools.reduce = left fold; pickle round trip",
 ]
 SCHED_ASSUMPTIONS = [
     "bridge between scheduler-observed state and real time: a pooled node's function runs inside [its submit/ensure_future call, the wait that reports it done] (DESIGN 3.4)",
-    "rely/guarantee: workers write only results[own id] / profiles[own id]; a future that returns normally has written results[id] (guarantee proved on ExecNode.execute, contracts/values.py)",
-    "precondition wf_exec of async_execute (graph nodes are keys of exec_nodes, dependencies inside the graph are edges, acyclic, max_concurrency >= 1) is established by the callers (contracts of the DAG layer)",
+    "rely/guarantee: workers write only results[own id] / profiles[own id]; a future that returns normally has written results[id]",
+    "precondition wf_exec of async_execute (graph nodes are keys of exec_nodes, dependencies inside the graph are edges, acyclic, max_concurrency >= 1); P1/P4/P5 are proved at the call sites (contracts/dagproto.py), P2/P3 rest on from_exec_nodes (bounded stand-in only)",
     "'ready' and 'in flight' are the scheduler's knowledge state: a node that finished but has not been observed by a wait still counts as in flight",
 ]
+SW = dict(kind="sched")
 
 
-def sched(extra_assumptions=(), **harness):
-    h = dict(kind="sched")
-    h.update(harness)
-    return dict(groups=["scheduler"], harness=h, trusted=SCHED_TRUSTED, assumptions=SCHED_ASSUMPTIONS + list(extra_assumptions))
+def P_(groups, bounded=(), harness=None, trusted=SCHED_TRUSTED, assumptions=SCHED_ASSUMPTIONS, claim="proof", explanation=""):
+    return dict(groups=list(groups), bounded=list(bounded), harness=harness, trusted=list(trusted), assumptions=list(assumptions), standin_always=True, claim=claim, explanation=explanation)
 
 
 PROPS = {
-    "C02": sched(),
-    "C03": sched(active=True),
-    "C04": sched(),
-    "C05": sched(),
-    "C06": sched(),
-    "C08": sched(),
-    "C09": sched(fail=True, active=True),
-    "C10": sched(active=True),
-    "C14": sched(fail=True),
+    "C01": P_(["values", "dagproto"], ["programs", "programs_flat", "reference_matrix"], claim="other",
+              explanation="Mixed: the value-level functions between the recorded node table and the returned value are proved against their contracts; that the recorded table is the meaning of the describing function (tracing) is only covered by the bounded program-level stand-in."),
+    "C02": P_(["scheduler", "values"], ["reference_matrix"], dict(SW)),
+    "C03": P_(["scheduler", "values", "digraph", "dagproto"], ["programs_flat", "selection"], dict(SW, active=True)),
+    "C04": P_(["scheduler", "values", "dagproto"], ["config"], dict(SW)),
+    "C05": P_(["scheduler"], ["config"], dict(SW)),
+    "C06": P_(["scheduler", "digraph", "dagproto"], ["config"], dict(SW)),
+    "C07": P_(["digraph", "dagproto"], ["priority_table", "config"]),
+    "C08": P_(["scheduler", "dagproto"], ["config"], dict(SW)),
+    "C09": P_(["scheduler", "values"], [], dict(SW, fail=True, active=True)),
+    "C10": P_(["scheduler", "values"], ["programs", "reference_matrix"], dict(SW, active=True)),
+    "C11": P_(["dagproto", "digraph", "values"], ["setup_histories", "build_validation"]),
+    "C12": P_(["digraph", "dagproto", "values"], ["selection"]),
+    "C13": P_(["digraph", "dagproto"], ["selection_debug", "build_validation"]),
+    "C14": P_(["scheduler", "values", "dagproto"], ["profile"], dict(SW, fail=True)),
+    "C15": P_(["dagproto", "values", "digraph"], ["no_leak", "selection", "compose"]),
+    "C16": P_(["threads", "dagproto", "values"], ["threads"], claim="other",
+              explanation="Mixed: the ownership guards (who may take the description branch, lock discipline of threadsafe_make_dag, frames of the run path) are proved; LazyExecNode.__call__ and real interleavings are covered by the bounded thread stand-in only."),
+    "C17": P_(["scheduler", "values", "dagproto"], ["async", "programs_flat"], dict(SW)),
+    "C18": P_(["dagproto"], ["cache"]),
+    "C19": P_(["digraph"], ["compose"], claim="exploration",
+              explanation="compose() is outside the verifier's subset (deepcopy of frozen dataclasses, in-place rewiring of shared lists); decided by the bounded stand-in only; the single proved obligation concerns ancestors_of_iter."),
+    "C20": P_([], ["programs", "reference_matrix"], claim="exploration",
+              explanation="the describe branch of DAG.__call__ (dataclasses.asdict, LazyExecNode construction, frame inspection) is outside the verifier's subset; decided by the bounded stand-in only."),
 }
